@@ -8,7 +8,7 @@
              reference window (interval index -> sums of the recorded calls); it uses
              neither rw_* nor step/accept of the model. *)
 From Coq Require Import List ZArith QArith Bool.
-From GZ Require Export Lib.CheckLib Lib.RollingWindow Lib.RollingWindowSpec C01.Model C01.Gen C01.WrapModel.
+From GZ Require Export Lib.CheckLib Lib.RollingWindow Lib.RollingWindowSpec C01.Model C01.Gen C01.WrapModel C01.Multi.
 From GZgen Require Export C01Consts.
 Import ListNotations.
 Open Scope Z_scope.
@@ -46,7 +46,10 @@ Record case := mkCase
     csched : list (nat * Z);        (* non-empty: the calls are concurrent, forced schedule *)
     csobs : list sobs; ctobs : list tobs;
     cwcalls : list wcall; cwobs : list wobs;     (* non-empty: independent wrapper calls *)
-    crest : list hreq; crobs : list robs }.      (* non-empty: requests through one BreakerHandler *)
+    crest : list hreq; crobs : list robs;        (* non-empty: requests through one BreakerHandler *)
+    cnamed : list bool;                          (* non-empty: several breakers (true: a registry name) *)
+    cmops : list mop; cmobs : list (option iobs) }.  (* operations; one row per call node in pre-order,
+                                                        None when the node never ran *)
 
 (* ------------------------------------------------------------ near-ties *)
 
@@ -216,6 +219,51 @@ Fixpoint all2 {A B} (f : A -> B -> bool) (l1 : list A) (l2 : list B) : bool :=
   | _, _ => false
   end.
 
+(* ---- several breakers / registry / nested calls (C01/Multi.v) *)
+Definition nop_match (m : obs) (o : iobs) : bool :=
+  result_eqb (o_res m) (x_res o) && (o_req m =? x_req o) && (o_fb m =? x_fb o) &&
+  (x_draws o =? 0) && (x_last o =? -1) && (x_tot o =? 0) && (x_ptot o =? 0) && (x_fail o =? 0) && (x_drop o =? 0).
+
+Definition row_tie (cfg : config) (r : mrow) : bool :=
+  match r with
+  | MRun lc _ wpre _ =>
+    let now := w_clock wpre + k_gap lc in
+    match k_ctx lc with
+    | CDone => false
+    | _ => near_tie cfg (history (swin (w_st wpre)) now) (slast (w_st wpre)) now (k_u lc)
+    end
+  | _ => false
+  end.
+
+Definition row_match (base : Z) (r : mrow) (o : option iobs) : bool :=
+  match r, o with
+  | MSkip, None => true
+  | MNopRun m, Some o => nop_match m o
+  | MRun lc m wpre wpost, Some o =>
+    let now := w_clock wpre + k_gap lc in
+    let h0 := history (swin (w_st wpre)) now in
+    (w_accepts h0 =? x_pacc o) && (w_total h0 =? x_ptot o) &&
+    (w_failing h0 =? x_pfailing o) && (w_working h0 =? x_pworking o) &&
+    obs_match base wpost m o
+  | _, _ => false
+  end.
+
+Definition op_wf (nslots : nat) (op : mop) : bool :=
+  match op with MCall n => nwf nslots n | MNoBreaker i _ => (i <? nslots)%nat end.
+
+Definition op_calls (op : mop) : list call :=
+  match op with MCall n => ncalls n | MNoBreaker _ _ => [] end.
+
+Fixpoint magrees_ops (cfg : config) (base : Z) (ms : mworld) (ops : list mop) (os : list (option iobs)) : bool :=
+  match ops with
+  | [] => match os with [] => true | _ => false end
+  | op :: ops' =>
+    let '(ms1, rows) := mstep cfg ms op in
+    if existsb (row_tie cfg) rows then true      (* float64 vs exact: stop comparing *)
+    else let n := length rows in
+         all2 (row_match base) rows (firstn n os) && magrees_ops cfg base ms1 ops' (skipn n os)
+  end.
+
 Fixpoint rest_agrees_from (cfg : config) (w : world) (rs : list hreq) (os : list robs) : bool :=
   match rs, os with
   | [], [] => true
@@ -229,13 +277,18 @@ Fixpoint rest_agrees_from (cfg : config) (w : world) (rs : list hreq) (os : list
   | _, _ => false
   end.
 
+Definition multi_agrees (c : case) : bool :=
+  forallb (op_wf (length (cnamed c))) (cmops c) &&
+  magrees_ops cfg_gen (cbase c) (minit cfg_gen (cbase c) (cnamed c)) (cmops c) (cmobs c).
+
 Definition agrees (c : case) : bool :=
+  match cnamed c with _ :: _ => multi_agrees c | [] =>
   match cwcalls c, crest c, csched c with
   | _ :: _, _, _ => all2 wcall_agrees (cwcalls c) (cwobs c)
   | [], _ :: _, _ => rest_agrees_from cfg_gen (init_world cfg_gen (cbase c)) (crest c) (crobs c)
   | [], [], [] => seq_agrees c
   | [], [], _ => conc_agrees c
-  end.
+  end end.
 
 Definition model_wobs (c : case) :=
   (map (fun k => wrap (wc_kind k) (wc_rej k) (wc_ctxdone k) (wc_d k)) (cwcalls c),
@@ -306,54 +359,69 @@ Definition over_limit (h : wres) : bool :=
   Qltb (inject_Z prop_protection + prop_fraction * inject_Z (w_accepts h))%Q
        (inject_Z (w_total h - w_accepts h)).
 
+(* the window accept() read is the reference window *)
+Definition pc_pre (g : geom) (p : pstate) (now : Z) (o : iobs) : bool :=
+  let h := ref_history g (p_log p) now in
+  (w_accepts h =? x_pacc o) && (w_total h =? x_ptot o) &&
+  (w_failing h =? x_pfailing o) && (w_working h =? x_pworking o).
+
+(* done context: ctx.Err(), nothing runs, nothing recorded *)
+Definition pc_done (g : geom) (p : pstate) (now : Z) (o : iobs) : bool :=
+  result_eqb (x_res o) RCtxDone && (x_req o =? 0) && (x_fb o =? 0) && sums_match g (p_log p) now o.
+
+(* Was the call rejected?  Read off what only a rejection / an admission can show: a Do*
+   call was admitted iff its request ran; Allow was admitted iff it returned nil.  The
+   returned VALUE does not tell: the request of an admitted call may itself return
+   ErrServiceUnavailable (a nested breaker that is open) or the fallback's value. *)
+Definition pc_rejected (e : entry) (o : iobs) : bool :=
+  if is_allow e then negb (result_eqb (x_res o) RNil) else (x_req o =? 0).
+
+Definition pc_reject (g : geom) (p : pstate) (now : Z) (e : entry) (o : iobs) : pstate * bool :=
+  let h := ref_history g (p_log p) now in
+  let log' := ref_record g (p_log p) now v_drop in
+  (mkP log' now (p_lsure p) (p_unsure p),
+   (* T2: request not run, fallback exactly once iff there is one, one drop recorded *)
+   (x_req o =? 0) &&
+   (if has_fallback e then result_eqb (x_res o) RFallback && (x_fb o =? 1) && x_fbarg o
+    else result_eqb (x_res o) RUnavailable && (x_fb o =? 0)) &&
+   sums_match g log' now o &&
+   (* T1 *)
+   over_limit h &&
+   (* T3: not later than 1 s after the previous throttled admission *)
+   (p_unsure p || negb ((0 <? p_lsure p) && (prop_force <? now - p_lsure p)))).
+
+(* an admitted call whose request returned at [t] what makes the call return [expected] and
+   count as a success iff [succ] *)
+Definition pc_admit (cfg : config) (g : geom) (p : pstate) (now t : Z) (e : entry)
+           (expected : result) (succ : bool) (u : Q) (o : iobs) : pstate * bool :=
+  let h := ref_history g (p_log p) now in
+  let x := if succ then v_success else v_fail in
+  let log' := ref_record g (p_log p) t x in
+  let sure_pos := negb (Qle_bool (drop_ratio cfg h) 0) && negb (tie_sign cfg h) in
+  (mkP log' t (if sure_pos then now else p_lsure p) (p_unsure p || tie_sign cfg h),
+   (* T2: request exactly once, error unchanged / panic re-raised, the fallback does not run,
+      one success or failure *)
+   result_eqb (x_res o) expected &&
+   (x_req o =? (if is_allow e then 0 else 1)) && (x_fb o =? 0) &&
+   sums_match g log' t o &&
+   (* T4: total failure, no force-pass due, draw surely below (total-5)/(total+1) *)
+   negb (negb (p_unsure p) && (w_accepts h =? 0) &&
+         negb (force_due cfg (p_lsure p) now) &&
+         Qltb u ((inject_Z (w_total h - prop_protection) / inject_Z (w_total h + 1)))%Q &&
+         negb (rel_close u (inject_Z (w_total h - prop_protection) / inject_Z (w_total h + 1))%Q))).
+
 Definition pcheck (cfg : config) (g : geom) (p : pstate) (c : call) (o : iobs) : pstate * bool :=
   let now := p_clock p + k_gap c in
   let e := k_entry c in
   match k_ctx c with
-  | CDone =>
-    (* done context: ctx.Err(), nothing runs, nothing recorded *)
-    (mkP (p_log p) now (p_lsure p) (p_unsure p),
-     result_eqb (x_res o) RCtxDone && (x_req o =? 0) && (x_fb o =? 0) && sums_match g (p_log p) now o)
+  | CDone => (mkP (p_log p) now (p_lsure p) (p_unsure p), pc_done g p now o)
   | _ =>
-    let h := ref_history g (p_log p) now in
-    (* the window accept() read is the reference window *)
-    let pre_ok := (w_accepts h =? x_pacc o) && (w_total h =? x_ptot o) &&
-                  (w_failing h =? x_pfailing o) && (w_working h =? x_pworking o) in
-    (* Was the call rejected?  Read off what only a rejection / an admission can show: a Do*
-       call was admitted iff its request ran; Allow was admitted iff it returned nil.  The
-       returned VALUE does not tell: the request of an admitted call may itself return
-       ErrServiceUnavailable (a nested breaker that is open) or the fallback's value. *)
-    let was_rejected := if is_allow e then negb (result_eqb (x_res o) RNil) else (x_req o =? 0) in
-    if was_rejected then
-      let log' := ref_record g (p_log p) now v_drop in
-      let ok := pre_ok &&
-        (* T2: request not run, fallback exactly once iff there is one, one drop recorded *)
-        (x_req o =? 0) &&
-        (if has_fallback e then result_eqb (x_res o) RFallback && (x_fb o =? 1) && x_fbarg o
-         else result_eqb (x_res o) RUnavailable && (x_fb o =? 0)) &&
-        sums_match g log' now o &&
-        (* T1 *)
-        over_limit h &&
-        (* T3: not later than 1 s after the previous throttled admission *)
-        (p_unsure p || negb ((0 <? p_lsure p) && (prop_force <? now - p_lsure p))) in
-      (mkP log' now (p_lsure p) (p_unsure p), ok)
+    if pc_rejected e o then
+      let '(p', ok) := pc_reject g p now e o in (p', pc_pre g p now o && ok)
     else
-      let t := now + k_dur c in
-      let x := if counts_as_success e (k_out c) then v_success else v_fail in
-      let log' := ref_record g (p_log p) t x in
-      let sure_pos := negb (Qle_bool (drop_ratio cfg h) 0) && negb (tie_sign cfg h) in
-      let ok := pre_ok &&
-        (* T2: request exactly once, error unchanged / panic re-raised, one success or failure *)
-        result_eqb (x_res o) (result_of e (k_out c)) &&
-        (x_req o =? (if is_allow e then 0 else 1)) && (x_fb o =? 0) &&
-        sums_match g log' t o &&
-        (* T4: total failure, no force-pass due, draw surely below (total-5)/(total+1) *)
-        negb (negb (p_unsure p) && (w_accepts h =? 0) &&
-              negb (force_due cfg (p_lsure p) now) &&
-              Qltb (k_u c) ((inject_Z (w_total h - prop_protection) / inject_Z (w_total h + 1)))%Q &&
-              negb (rel_close (k_u c) (inject_Z (w_total h - prop_protection) / inject_Z (w_total h + 1))%Q)) in
-      (mkP log' t (if sure_pos then now else p_lsure p)
-           (p_unsure p || tie_sign cfg h), ok)
+      let '(p', ok) := pc_admit cfg g p now (now + k_dur c) e (result_of e (k_out c))
+                                (counts_as_success e (k_out c)) (k_u c) o in
+      (p', pc_pre g p now o && ok)
   end.
 
 Fixpoint pcheck_all (cfg : config) (g : geom) (p : pstate) (cs : list call) (os : list iobs) : bool :=
@@ -521,13 +589,91 @@ Fixpoint rest_prop_from (g : geom) (l : rlog) (clock : Z) (rs : list hreq) (os :
   | _, _ => false
   end.
 
+(* ---- several breakers / registry / nested calls, from the observations only: one reference
+   window per breaker (its grid starts when the breaker came into being), the clock shared.
+   The request of an admitted outer call returned what the inner call was OBSERVED to
+   return (wrapped when it was ErrServiceUnavailable and the request wraps): the outer call
+   must hand exactly that back, count it by its own predicate, and not run its fallback. *)
+Inductive pslot := PFresh | PLive (g : geom) (p : pstate) | PNop.
+
+Definition presolve (cfg : config) (now : Z) (s : pslot) : pslot :=
+  match s with
+  | PFresh => PLive (mkGeom now (bucket_duration cfg) (c_buckets cfg)) (mkP [] now 0 false)
+  | _ => s
+  end.
+
+Definition all_none (l : list (option iobs)) : bool :=
+  forallb (fun o => match o with None => true | Some _ => false end) l.
+
+Definition mp_shell (cfg : config) (ps : list pslot) (clock : Z) (i : nat) (c : call) (nskip : nat)
+           (body : list pslot -> Z -> list (option iobs) -> list pslot * Z * outcome * list (option iobs) * bool)
+           (os : list (option iobs)) : list pslot * Z * result * list (option iobs) * bool :=
+  match os with
+  | Some o :: os1 =>
+    let now := clock + k_gap c in
+    let e := k_entry c in
+    let sl := presolve cfg now (nth i ps PFresh) in
+    let ps0 := set_nth i sl ps in
+    match sl with
+    | PFresh => (ps, clock, ROther, [], false)
+    | PNop =>
+      (* nopBreaker: the request runs once whatever the context, its result comes back, no fallback *)
+      let '(ps1, clk1, out, os2, ok1) := body ps0 now os1 in
+      (ps1, clk1 + k_dur c, x_res o, os2,
+       ok1 && result_eqb (x_res o) (result_of e out) && (x_req o =? (if is_allow e then 0 else 1)) && (x_fb o =? 0))
+    | PLive g p =>
+      match k_ctx c with
+      | CDone => (ps0, now, x_res o, skipn nskip os1, pc_done g p now o && all_none (firstn nskip os1))
+      | _ =>
+        if pc_rejected e o then
+          let '(p', ok) := pc_reject g p now e o in
+          (set_nth i (PLive g p') ps0, now, x_res o, skipn nskip os1,
+           pc_pre g p now o && ok && all_none (firstn nskip os1))
+        else
+          let '(ps1, clk1, out, os2, ok1) := body ps0 now os1 in
+          let t := clk1 + k_dur c in
+          let '(p', ok) := pc_admit cfg g p now t e (result_of e out) (counts_as_success e out) (k_u c) o in
+          (set_nth i (PLive g p') ps1, t, x_res o, os2, pc_pre g p now o && ok1 && ok)
+      end
+    end
+  | _ => (ps, clock, ROther, [], false)     (* a node whose enclosing request ran must have run *)
+  end.
+
+Fixpoint mp_node (cfg : config) (ps : list pslot) (clock : Z) (n : ncall) (os : list (option iobs))
+  : list pslot * Z * result * list (option iobs) * bool :=
+  match n with
+  | NLeaf i c => mp_shell cfg ps clock i c 0 (fun ps0 clk os0 => (ps0, clk, k_out c, os0, true)) os
+  | NNest i c wr inner =>
+    mp_shell cfg ps clock i c (nsize inner)
+             (fun ps0 clk os0 => let '(ps1, clk1, r, os1, ok) := mp_node cfg ps0 clk inner os0 in
+                                 (ps1, clk1, outcome_via wr r, os1, ok)) os
+  end.
+
+Fixpoint mp_ops (cfg : config) (ps : list pslot) (clock : Z) (ops : list mop) (os : list (option iobs)) : bool :=
+  match ops with
+  | [] => match os with [] => true | _ => false end
+  | MCall n :: ops' =>
+    let '(ps1, clk1, _, os1, ok) := mp_node cfg ps clock n os in
+    ok && mp_ops cfg ps1 clk1 ops' os1
+  | MNoBreaker i gap :: ops' => mp_ops cfg (set_nth i PNop ps) (clock + gap) ops' os
+  end.
+
+Definition multi_prop_ok (c : case) : bool :=
+  forallb (op_wf (length (cnamed c))) (cmops c) &&
+  mp_ops cfg_gen
+         (map (fun n : bool => if n then PFresh
+                               else PLive (mkGeom (cbase c) (bucket_duration cfg_gen) gen_buckets) (mkP [] (cbase c) 0 false))
+              (cnamed c))
+         (cbase c) (cmops c) (cmobs c).
+
 Definition prop_ok (c : case) : bool :=
   (* the window the property talks about is the one the source configures *)
   (gen_window =? prop_window) &&
+  match cnamed c with _ :: _ => multi_prop_ok c | [] =>
   match cwcalls c, crest c, csched c with
   | _ :: _, _, _ => all2 wcall_prop (cwcalls c) (cwobs c)
   | [], _ :: _, _ => rest_prop_from (mkGeom (cbase c) (bucket_duration cfg_gen) gen_buckets) [] (cbase c)
                                     (crest c) (crobs c)
   | [], [], [] => seq_prop_ok c
   | [], [], _ => conc_prop_ok c
-  end.
+  end end.
